@@ -160,7 +160,14 @@ def field_errors(fs, phys, values, where, name, errs, v):
         if cells:
             errs.append(Err("SERIES_CONTAINS_DUPLICATES", name, None, cells, where=where))
     if not ok_dtype:
-        errs.append(Err("WRONG_DATATYPE", name, None, None, scalar=phys, where=where))
+        if fs["dtype"] == "str":
+            # `str` is checked element by element: the report names the
+            # non-string elements
+            errs.append(Err("WRONG_DATATYPE", name, None,
+                            [(i, x) for i, x in enumerate(values)
+                             if x is not None and not isinstance(x, str)], where=where))
+        else:
+            errs.append(Err("WRONG_DATATYPE", name, None, None, scalar=phys, where=where))
         if fs.get("checks"):
             # what value checks report on wrongly typed data is not specified
             v.exact = False
